@@ -735,8 +735,8 @@ def pd_inner(c, L):
     if len(ev) != 1 or ev[0][0] != 'fire' or len(ev[0][1]) != 5 or ev[0][1][0].k != 'any':
         return z3.BoolVal(False)
     a = ev[0][1]
-    funcs = c.st.env.get('funcs')
-    if funcs is None or funcs.k != 'seq' or 'key_index' not in funcs.extra:
+    funcs = c.st.env['funcs']              # (a renamed local: KeyError -> the function is reported out of the subset)
+    if funcs.k != 'seq' or 'key_index' not in funcs.extra:
         return z3.BoolVal(False)
     ok = a[1] is c._params['msg'] and a[2] is c._params['time'] and a[3] is c._params['addr'] and a[4] is c._params['recv_port']
     return z3.And(z3.BoolVal(bool(ok)), a[0].z == FUNC_AT(funcs.extra['key_index'], L.i - 1))
